@@ -17,7 +17,7 @@ from svgpathtools import Line, QuadraticBezier, CubicBezier, Arc, Path
 
 SHAPES = ['L_diagonal', 'L_horizontal', 'Q_generic', 'Q_collinear_nofold', 'Q_nondyadic',
           'C_arch', 'C_sshape', 'C_loop', 'C_axis_line_shaped', 'C_monotone',
-          'A_circle_small_ccw', 'A_circle_large_cw', 'A_ellipse_3to1', 'A_ellipse_rot30', 'A_rot400', 'A_rot180_large']
+          'A_circle_small_ccw', 'A_circle_large_cw', 'A_ellipse_3to1', 'A_ellipse_rot30', 'A_rot400', 'A_rot180_large', 'A_cw_large_rot30']
 
 
 def is_circ_unrot(seg):
@@ -178,6 +178,15 @@ def grid_paths(n_comb, n_rungs, kinds, long_stroke):
         others = LP.zigzag(max(n_rungs - 1, 0), 'L', amp=0.5, step=1.0, start=complex(n_comb / 3.0, lo + 8.0))
         k = len(others) // 2
         return Path(*zig), Path(*(others[:k] + [stroke] + others[k:]))
+    if long_stroke == 'far_fine':
+        # a fine hatch (pitch 0.375) far from the origin: neighbouring crossings are closer together than
+        # 1e-5 of their distance from the origin
+        far = complex(4.0e4, 3.0e4)
+        comb = LP.comb(n_comb, height=3.0, step=0.375, start=far, kinds=kinds)
+        x_hi = max(max(s_.start.real, s_.end.real) for s_ in comb) + 0.2
+        rungs = [Line(complex(far.real - 0.2, far.imag + 0.3 + 2.2 * (j + 0.37) / n_rungs),
+                      complex(x_hi, far.imag + 0.3 + 2.2 * (j + 0.37) / n_rungs + 0.011 * (1 + j % 4))) for j in range(n_rungs)]
+        return Path(*comb), Path(*rungs)
     comb = LP.comb(n_comb, kinds=kinds, with_long=(n_comb // 2) if long_stroke and n_comb > 2 else None)
     x_hi = max(max(s.start.real, s.end.real) for s in comb) + 0.537
     rungs = LP.rungs(n_rungs, x1=x_hi, kinds=kinds)
